@@ -684,24 +684,37 @@ def _cfg(base, inv=None, **kw):
 
 
 _PRE = {}
+_PRE_THREADS = []
 
 
 def prefetch(module, specs):
-    """Run the small, independent TLC runs (witnesses, wrong variants) side by side; _sr() picks the results up."""
+    """Run the small, independent TLC runs (witnesses, wrong variants) side by side and in the background of the
+    big exhaustive run; _sr() waits for them and picks the results up."""
     from concurrent.futures import ThreadPoolExecutor
 
     def one(s):
         name, cfg_text = s
-        return name, cfg_text, tlc.run(module, cfg_text=cfg_text, name=name, must_complete=False, workers=2)
-    with ThreadPoolExecutor(max_workers=8) as ex:
-        for name, cfg_text, r in ex.map(one, specs):
-            _PRE[(module, name)] = (cfg_text, r)
+        try:
+            return name, cfg_text, tlc.run(module, cfg_text=cfg_text, name=name, must_complete=False, workers=2)
+        except Exception:  # noqa - _sr() will run it in the foreground and report properly
+            return name, None, None
+
+    def all_():
+        with ThreadPoolExecutor(max_workers=8) as ex:
+            for name, cfg_text, r in ex.map(one, specs):
+                if r is not None:
+                    _PRE[(module, name)] = (cfg_text, r)
+    th = threading.Thread(target=all_, name='tlc-prefetch', daemon=True)
+    th.start()
+    _PRE_THREADS.append(th)
 
 
 def _sr(module, cfg=None, cfg_text=None, name=None, must_complete=False):
     """tlc.run for a small run: the prefetched result if the very same configuration was prefetched."""
     if cfg_text is None:
         cfg_text = open(os.path.join(tlc.SPEC, cfg)).read()
+    while _PRE_THREADS:
+        _PRE_THREADS.pop().join()
     hit = _PRE.get((module, name))
     if hit is not None and hit[0] == cfg_text:
         return hit[1]
